@@ -231,11 +231,12 @@ class XPathContext:
             elif isinstance(self.item, XPathNode):
                 self.item.clear_types()
         elif hasattr(schema, 'is_assertion_based'):
+            # No preliminary clearing of types: apply_schema() replaces or clears the
+            # types of every node and it does nothing if the tree is already bound
+            # to the same schema (a node tree reused by another context).
             if self.root is not None:
-                self.root.clear_types()
                 self.root.apply_schema(schema)
             elif isinstance(self.item, XPathNode):
-                self.item.clear_types()
                 self.item.apply_schema(schema)
         else:
             msg = f"{schema!r} is not an instance of AbstractSchemaProxy"
